@@ -105,6 +105,24 @@ def run(ctx):
             n += 1
             scripts.append((sid, lines))
             meta[sid] = (dlt, frames, tss)
+    # packets that serialize to nothing (RawPDU("")) are records too: they must not vanish from the file
+    zs = []
+    for i in range(6 if quick else 60):
+        sizes = [rng.choice([0, 0, 1, 40]) for _ in range(rng.randrange(2, 7))]
+        tz = [rng.randrange(0, TS_LIMIT) for _ in sizes]
+        zs.append(('z%d' % i, ['wopen 12'] + ['wraw %d x%s' % (t, bytes(rng.randrange(256) for _ in range(k)).hex()) for t, k in zip(tz, sizes)] + ['wclose', 'read 1'], sizes, tz))
+    zh = C.run_harness('h_cap', [(a_, b_) for a_, b_, _, _ in zs])
+    ctx.cov['evaluations'] += len(zs)
+    for sid, lines, sizes, tz in zs:
+        lh = [l for l in zh.get(sid, []) if not l.startswith('!~')]
+        try:
+            pi0 = [i for i, l in enumerate(lh) if l.startswith('P ')][0]
+            recs_ = [(int(l.split()[1]), (len(l.split()[3]) - 1) // 2) for l in lh[pi0 + 1: pi0 + 1 + int(lh[pi0].split()[1])]]
+        except Exception:
+            recs_ = None
+        if any(l.startswith('!!') or l.startswith('E ') for l in lh) or recs_ != list(zip(tz, sizes)):
+            report('%d packets written (sizes %s), read back as %s' % (len(sizes), sizes, recs_), lines, lh)
+            break
     h = C.run_harness('h_cap', scripts)
     ms = [('t%d' % i, ['ts %d' % t]) for i, t in enumerate(TS_EDGE + [rng.randrange(0, TS_LIMIT) for _ in range(200)])]
     mo = C.run_model('cap', ms) if runner_ok else {}
@@ -193,6 +211,9 @@ def run(ctx):
                     body = rng.choice([b'', b'\x42', b'\x42\x42', b'\x42\x42\x03', b'\x42\x42\x03\x00\x00\x00', b'\xaa\xaa\x03\x00', b'\x42\x42\x01', b'\x00\x00\x00'])
                     body += bytes(rng.randrange(256) for _ in range(rng.choice([0, 0, 1, 2, 5])))
                     f = bytes(rng.randrange(256) for _ in range(12)) + struct.pack('>H', rng.choice([len(body), 3, 0x26, 0x05dc, 0x0100])) + body
+                    if rng.random() < 0.4:
+                        # well-formed LLC behind every kind of value below 0x0800 (a length up to 1500, the undefined 1501..1535, 0x0600..0x07ff)
+                        f = bytes(rng.randrange(256) for _ in range(12)) + struct.pack('>H', rng.choice([8, 0x05dc, 0x05dd, 0x05ff, 0x0600, 0x07ff])) + bytes([0x42, 0x42, 0x03]) + bytes(rng.randrange(256) for _ in range(5))
                 else:
                     f = bytes(rng.randrange(256) for _ in range(rng.choice([1, 2, 3, 4, 8, 13, 14, 20, 60, 300])))
                 frames.append(f)
@@ -218,9 +239,11 @@ def run(ctx):
     uniq = sorted(set(pq))
     ph = C.run_harness('h_cap', [('q%d' % i, ['parses %d %s' % (d, hx(f))]) for i, (d, f) in enumerate(uniq)])
     parses = {}
+    ptypes = {}
     for i, (d, f) in enumerate(uniq):
         o = [l for l in ph.get('q%d' % i, []) if not l.startswith('!~')]
-        parses[(d, f)] = (o[-1] == 'A 1') if o and o[-1].startswith('A ') else None
+        parses[(d, f)] = o[-1].startswith('A 1') if o and o[-1].startswith('A ') else None
+        ptypes[(d, f)] = o[-1].split()[2] if o and o[-1].startswith('A 1 ') else None
     h = C.run_harness('h_cap', scripts)
     mscripts = []
     for sid, lines in scripts:
@@ -245,6 +268,7 @@ def run(ctx):
         try:
             pi = [i for i, l in enumerate(lh) if l.startswith('P ')]
             got = [int(l.split()[1]) for l in lh[pi[0] + 1: pi[0] + 1 + int(lh[pi[0]].split()[1])]]
+            got_types = [l.split()[2] for l in lh[pi[0] + 1: pi[0] + 1 + int(lh[pi[0]].split()[1])]]
             ls = [l for l in lh if l.startswith('L')]
             it = [int(x) for x in ls[0].split()[1:]]
             lp_all = ls[1].split()[1:]
@@ -256,6 +280,8 @@ def run(ctx):
             continue
         if got != want:
             report('next_packet() over a file of %d frames yields frames %s, the frames that parse are %s' % (len(frames), [g - tss[0] for g in got][:12], [w - tss[0] for w in want][:12]), lines, lh)
+        elif got_types != [ptypes[(dlt, f)] for f in frames if parses[(dlt, f)]]:
+            report('next_packet() hands out top-level layers of pdu_type %s, the link type\'s documented dispatch gives %s' % (got_types[:12], [ptypes[(dlt, f)] for f in frames if parses[(dlt, f)]][:12]), lines, lh)
         elif it != want:
             report('range iteration yields frames %s, the frames that parse are %s' % ([g - tss[0] for g in it][:12], [w - tss[0] for w in want][:12]), lines, lh)
         elif rawn != len(frames):
